@@ -309,6 +309,8 @@ const prelude = `(set-option :smt.mbqi true)
 (assert (= (root null) null))
 (declare-datatypes ((Slice 0)) (((mk_slice (sarr Ref) (soff Int) (slen Int) (scap Int)))))
 (define-fun nil_slice () Slice (mk_slice null 0 0 0))
+(declare-fun sl_elem (Slice Int) Ref)
+(assert (forall ((s Slice) (i Int)) (! (= (sl_elem s i) (elem (sarr s) (+ (soff s) i))) :pattern ((sl_elem s i)))))
 (declare-datatypes ((Iface 0)) (((mk_iface (ityp Int) (ival Int)))))
 (define-fun nil_iface () Iface (mk_iface 0 0))
 (declare-datatypes ((Fn 0)) (((mk_fn (fn_id Int) (fn_env Ref)))))
@@ -326,3 +328,5 @@ const prelude = `(set-option :smt.mbqi true)
 (define-fun go_div ((a Int) (b Int)) Int (ite (>= a 0) (ite (> b 0) (div a b) (- (div a (- b)))) (ite (> b 0) (- (div (- a) b)) (div (- a) (- b)))))
 (define-fun go_mod ((a Int) (b Int)) Int (- a (* b (go_div a b))))
 `
+
+func slElem(s, i Term) Term { return App(SRef, "sl_elem", s, i) }
